@@ -1,3 +1,5 @@
+import Dawgs.Props.C05
+import Dawgs.Props.C05Facts
 import Dawgs.Props.C06
 import Dawgs.Props.C06Sites
 import Dawgs.Props.C09
